@@ -97,6 +97,20 @@ THEOREMS = [
         "C02_function_alone_canon",
         "C02_canon_subsumes",
         "C02_keeps_canon",
+        # stage F (second deepening round): E4 = outdup, canonD = merge . outdup . fold; stand-alone forms widened
+        "C02_wf_outputs",
+        "C02_outdup_output",
+        "C02_outdup_deserialize_graph",
+        "C02_outdup_deserialize",
+        "C02_model_outdup",
+        "C02_model_norm_outdup",
+        "C02_graph_outdup",
+        "C02_function_alone_outdup",
+        "C02_node_alone_wide",
+        "C02_node_wide",
+        "C02_attr_wide",
+        "C02_outdup_subsumes",
+        "C02_keeps_outdup",
     )
 ]
 ASSUMPTIONS = [
@@ -121,12 +135,19 @@ ASSUMPTIONS = [
     "Inside the second widening (WFprotoX p := WFproto (merge (fold p)), C02_*_canon; histogram wfx[edge]=...): "
     "additionally E3 value_info naming a graph output produced in the graph - its metadata is united into the output "
     "entry (C02_merge_output: the mergeVI normalisation), C02_merge_deserialize* under WFproto (merge p).  "
-    "Still oracle (EXPECTED_NORMALISATIONS) + correspondence only: E4 several output entries with one name (the proofs "
-    "of the graph theorem rest on distinct output names) and its combinations; value_info naming an output nobody "
-    "produces; IR<10 models whose own graph values have names of the experimental form",
+    "Inside the third widening (second deepening round; WFprotoD p := WFproto (merge (outdup (fold p))), C02_*_outdup, "
+    "C02_node_alone_wide, C02_node_wide, C02_attr_wide; histograms wfd[edge]=..., wfd[E4]=...): additionally E4 "
+    "several graph output entries with one name - WFproto itself (consOutputs) admits entries with one name when "
+    "they are identical, outdup replaces the entries of a declared name by their union (type/shape/doc of the last, "
+    "metadata united, later wins; C02_outdup_output), C02_outdup_deserialize* under WFproto (merge (outdup p)); the "
+    "edge stream now also runs on stand-alone nodes and GRAPH(S) attributes.  "
+    "Still oracle (EXPECTED_NORMALISATIONS) + correspondence only: value_info naming an output nobody produces; "
+    "IR<10 models whose own graph values have names of the experimental form (E8)",
     "the hypotheses of the new theorems are evaluated by the driver on every case (wfw / wfx, thmw / thmx = statements "
     "of C02_*_wide / C02_*_canon, sub / subx = C02_wide_subsumes / C02_canon_subsumes, unread = C02_fold_unread* "
-    "observed through serialize, fields = C02_tensor_fields); a false instance is a disagreement",
+    "observed through serialize, fields = C02_tensor_fields; wfd / thmd / subd / unreadd = hypothesis and statement of "
+    "C02_*_outdup / C02_node_alone_wide / C02_attr_wide, C02_outdup_subsumes, C02_outdup_deserialize* observed through "
+    "serialize); a false instance is a disagreement",
     "tensors: serTensorF = serialize_tensor_into written out per tensor class and per field (CopyFrom as Clear + "
     "MergeFrom with the presence convention unset == default) is compared with the real to_proto on every tensor "
     "case; C02_tensor_fields claims every field incl. the payload in the storage field it came in, for all three "
@@ -542,7 +563,7 @@ EXPECTED_NORMALISATIONS = [
            "initializer): its metadata is united into the output entry (output entry wins per key), its "
            "type/shape/doc are overridden by the output entry; the value_info entry is dropped"),
     ("E4", "several graph output entries with one name: each reads the last entry's type/shape/doc and the "
-           "union of their metadata (later wins); their number and positions are kept"),
+           "union of their metadata (later wins); their number and positions are kept [inside the theorem: outdup]"),
     ("E5", "opset_import with a repeated domain: one entry per domain, the last version"),
     ("E6", "several value_info entries with one name: the last one counts"),
     ("E7", "external_data keys other than location/offset/length/checksum are dropped"),
@@ -743,10 +764,12 @@ def _all_nodes(x):
     elif isinstance(x, NodeProto):
         yield x
         for a in x.attribute:
-            if a.HasField("g"):
-                yield from _all_nodes(a.g)
-            for g in a.graphs:
-                yield from _all_nodes(g)
+            yield from _all_nodes(a)
+    elif isinstance(x, AttributeProto):
+        if x.HasField("g"):
+            yield from _all_nodes(x.g)
+        for g in x.graphs:
+            yield from _all_nodes(g)
 
 
 def raise_shape(kind, p):
@@ -1485,10 +1508,12 @@ def _graphs_of(x):
             yield from _graphs_of(n)
     elif isinstance(x, NodeProto):
         for a in x.attribute:
-            if a.HasField("g"):
-                yield from _graphs_of(a.g)
-            for g in a.graphs:
-                yield from _graphs_of(g)
+            yield from _graphs_of(a)
+    elif isinstance(x, AttributeProto):
+        if x.HasField("g"):
+            yield from _graphs_of(x.g)
+        for g in x.graphs:
+            yield from _graphs_of(g)
 
 
 def edge_external(rng, t):
@@ -1712,6 +1737,19 @@ def run_cases(ctx: Ctx, cases):
                     if not out[flag]:
                         ctx.disagree(f"serde.{kind}: theorem instance false in the model: {thm}", rec,
                                      {"r": out["r"], "normw": out["normw"]}, None)
+            if "wfd" in out:
+                # stage F: canonD = merge (outdup (fold x)) (E4), also for stand-alone nodes and attributes
+                ctx.count(f"wfd[{stream}]={out['wfd']}")
+                if out["wfd"] and not out.get("wfx", out["wf"]):
+                    ctx.count(f"wfd-only[{stream}:{kind}]")
+                if stream == "edge" and ("E4:" in str(label) or "E1:pass-through-again" in str(label)):
+                    ctx.count(f"wfd[E4]={out['wfd']}")
+                for flag, thm in (("thmd", f"C02_{kind}_outdup / _wide: WFproto (canonD x) but serialize(deserialize x) != norm (canonD x)"),
+                                  ("subd", "C02_outdup_subsumes: WFproto (canon x) but outdup changes norm"),
+                                  ("unreadd", "C02_outdup_deserialize: WFproto (canonD x) but deserialize (canonD x) != deserialize x (seen through serialize)")):
+                    if not out[flag]:
+                        ctx.disagree(f"serde.{kind}: theorem instance false in the model: {thm}", rec,
+                                     {"r": out["r"], "normd": out.get("normd")}, None)
             if kind == "tensor":
                 if not out["fields"]:
                     ctx.disagree("serde.tensor: theorem instance false in the model: C02_tensor_fields", rec,
@@ -1826,8 +1864,8 @@ def run_unsupported(ctx: Ctx) -> None:
 def run(ctx: Ctx) -> None:
     ctx.rule = (
         "structured random protos per message kind (valid stream: oracle + correspondence; edge stream = supported "
-        "protos outside WFproto: oracle with the expected-normalisation list E1-E7 + correspondence, E2/E5/E6/E7 inside "
-        "the widened theorems; invalid stream: correspondence only; unsupported stream: six fixed protos, histogram only) "
+        "protos outside WFproto (also inside stand-alone nodes and GRAPH(S) attributes): oracle with the "
+        "expected-normalisation list E1-E8 + correspondence, E2-E7 inside the widened theorems; invalid stream: correspondence only; unsupported stream: six fixed protos, histogram only) "
         "+ repo testdata + ONNX backend corpus; distinct by (kind, rendered proto); "
         "every case is non-trivial (a message with at least one field)"
     )
@@ -1854,7 +1892,7 @@ def run(ctx: Ctx) -> None:
                 q, what = mutate(rng, kind, p)
                 if what:
                     cases.append((kind, q, "invalid", "+".join(what)))
-            if kind in ("graph", "function", "model", "tensor") and rng.random() < 0.4:
+            if kind in ("graph", "function", "model", "tensor", "node", "attr") and rng.random() < 0.4:
                 q, what = edge(rng, kind, p)
                 if what:
                     cases.append((kind, q, "edge", "+".join(what)))
